@@ -402,6 +402,17 @@ Proof.
     rewrite <- (firstn_skipn k (nodes l)) in Hx. apply in_app_iff in Hx as [Hx|Hx]; [left; assumption|right; right; assumption].
 Qed.
 
+(* releasing, as an array, memory whose first node is on the list never goes through (double-free checking on):
+   the position search runs before anything is written, and it is the search that meets the node *)
+Theorem dealloc_array_double_stopped asserts l m bytes : OInv l -> In m (nodes l) ->
+  o_dealloc_array asserts true l m bytes = Reported \/ o_dealloc_array asserts true l m bytes = Unreachable \/ o_dealloc_array asserts true l m bytes = AssertFail.
+Proof.
+  intros HI Hin. unfold o_dealloc_array. destruct (bytes <=? nsz l); [apply dealloc_double_stopped; assumption|].
+  pose proof (dealloc_double_stopped asserts l m HI Hin) as H. unfold o_dealloc in H.
+  destruct (find_pos asserts true l m) as [k| | | |]; try tauto.
+  destruct H as [H|[H|H]]; discriminate.
+Qed.
+
 Lemma skipn_skipn' (A : Type) (l : list A) : forall a b, skipn a (skipn b l) = skipn (b + a) l.
 Proof. induction l as [|h t IH]; intros a b; [rewrite !skipn_nil; reflexivity|]. destruct b as [|b]; cbn; [reflexivity|apply IH]. Qed.
 
@@ -440,4 +451,17 @@ Proof.
   - apply nth_In. lia.
   - unfold n_of, set_nodes. cbn [nodes]. rewrite app_length, firstn_length, skipn_length. unfold n_of in *. lia.
   - intros y Hy. apply in_app_iff in Hy as [Hy|Hy]; [apply (in_firstn' _ _ i); assumption|apply (in_skipn' _ _ (i + nodes_for l bytes)); assumption].
+Qed.
+
+(* the premises of the array double-release theorem are met by a concrete list (six free nodes in two runs, cursor in the
+   middle), and the three outcomes it allows all occur: a middle node is reported, the most recently freed one ends in the
+   unreachable-code abort *)
+Example array_double_release_nonvacuous :
+  let l := {| pb := 100000; pe := 100008; nodes := [256; 272; 288; 304; 320; 400]; ldp := 3%nat; nsz := 16 |} in
+  OInv l /\ In 272 (nodes l) /\ o_dealloc_array false true l 272 32 = Reported /\ o_dealloc_array false true l 304 48 = Unreachable
+  /\ o_dealloc_array false true l 256 48 = Reported.
+Proof.
+  cbv zeta. split; [|split; [cbn; tauto|split; [|split]; vm_compute; reflexivity]].
+  unfold OInv. cbn [nodes ldp pb pe nsz n_of length]. split; [|split; [lia|split; lia]].
+  apply sorted_SS. repeat (constructor; [|repeat (constructor; try lia)]). constructor.
 Qed.
